@@ -14,6 +14,9 @@
                                       slice whose tokens have these spans (C03Roots.run_rule_span): prints "s e" — computed from the
                                       token spans alone when the rule's sources need no run-time value, else `ls le` when some source
                                       denotes it for some run-time values — or "none" / "unknown-rule"
+     W Name ls le | s0 e0 s1 e1 .. -> does some Lint construction of struct rule Name (a row of Tables_c03structroots) denote the span
+                                      ls..le for SOME token indices over a document whose tokens have these spans
+                                      (C03StructRoots.run_struct_rule_span): "yes" / "no" / "unknown-rule"
      GE|...                        -> the same call on the same state, but over the REAL LRU (Model/C03LintGroupLru.v: promotion on
                                       get, least recently used entry popped on put at capacity lint_group_cache_cap) *)
 let rec pairs = function a :: b :: t -> (nat_of_int a, nat_of_int b) :: pairs t | _ -> []
@@ -111,6 +114,20 @@ let () =
                    | None -> print_endline "unknown-rule"
                    | Some None -> print_endline "none"
                    | Some (Some s) -> print_endline (Printf.sprintf "%d %d" (int_of_nat s.sstart) (int_of_nat s.send)))
+              | _ -> print_endline "?")
+         | _ -> print_endline "?")
+    | 'W' ->
+        (match split_bar body with
+         | [hd; sp] ->
+             (match words hd with
+              | [name; ls; le] ->
+                  let nm = List.init (String.length name) (fun i -> nat_of_int (Char.code name.[i])) in
+                  let got = { sstart = nat_of_int (int_of_string ls); send = nat_of_int (int_of_string le) } in
+                  let spans = List.map (fun (a, b) -> { sstart = a; send = b }) (pairs (ints_of_line sp)) in
+                  (match run_struct_rule_span struct_rule_srcs nm spans got with
+                   | None -> print_endline "unknown-rule"
+                   | Some true -> print_endline "yes"
+                   | Some false -> print_endline "no")
               | _ -> print_endline "?")
          | _ -> print_endline "?")
     | 'G' ->
